@@ -13,8 +13,22 @@ pub(crate) mod vk;
 pub(crate) mod vk;
 
 #[cfg(kani)]
+#[path = "../../harness/support/vh.rs"]
+pub(crate) mod vh;
+#[cfg(kani)]
 #[path = "../../harness/support/mvec.rs"]
 pub(crate) mod mvec;
+#[cfg(kani)]
+#[path = "../../harness/support/mvec8.rs"]
+pub(crate) mod mvec8;
+
+// under Kani `vec!` builds whichever `Vec` is in scope at the call site (the model Vec in the woven
+// files); textual macro scope takes precedence over the prelude macro
+#[cfg(kani)]
+macro_rules! vec {
+    () => { Vec::new() };
+    ($($x:expr),+ $(,)?) => {{ let mut v = Vec::new(); $(v.push($x);)+ v }};
+}
 
 #[path = "../../../build/weave/src/topic.rs"]
 mod topic;
